@@ -2,8 +2,13 @@
 TLC-generated and random-walk scenarios on the real proxy, TLC trace validation against RcMon,
 plus the exhaustive TLC run of the RcProxy design model for the property's configuration."""
 import json, os, shutil, time, random
-import common, gen_core
+import common, gen_core, gen_tlc
 from common import Inconclusive, log
+
+# number of TLC-simulated behaviours of the design model replayed on the real proxy (quick, thorough)
+GEN_N = (150, 4000)
+# random-walk scenarios additionally checked for conformance with the design model (quick, thorough)
+CONF_RW = (40, 400)
 
 # property -> list of (profile, quick_count, thorough_count)
 PLANS = {
@@ -57,22 +62,46 @@ def sig(sc):
     return json.dumps(sc["steps"], sort_keys=True)
 
 
-def run(pid, tier, seed, extra_scenarios=None):
-    """Returns (violations, coverage dict). extra_scenarios: list of (cfg, [scenario]) from the TLC generator."""
+def run(pid, tier, seed):
+    """Returns (violations, coverage dict)."""
     wd = common.scratch()
+    q = tier == "quick"
     try:
+        cov = {"states": 0, "transitions": 0, "traces": 0, "events": 0, "crashes": 0, "unrealised": 0,
+               "nontrivial": 0, "distinct": set(), "other": {}, "samples": [], "harness_errors": [],
+               "model": [], "conformance": {"accepted": 0, "drift": [], "unchecked": 0}, "generated": 0}
+        # 1. the design: exhaustive TLC run of the model for this property's configuration
+        for cfgname in (["MC_%s.cfg" % pid] if q else ["MC_%s.cfg" % pid, "MC_%st.cfg" % pid]):
+            mc = common.model_check(cfgname)
+            if not mc["ok"]:
+                raise Inconclusive("the design model does not satisfy its invariants under %s (a defect of the model "
+                                   "or of the design, to be reproduced on the real code before anything is claimed):\n%s" % (cfgname, mc["tail"]))
+            cov["model"].append({k: mc[k] for k in ("cfg", "states", "transitions", "secs")})
+            cov["states"] += mc["states"]
+            cov["transitions"] += mc["transitions"]
+        # 2. behaviours of the model (TLC -simulate) become schedules for the real proxy
         groups = []
-        for prof, q, t in PLANS[pid]:
-            n = q if tier == "quick" else t
-            groups.append((gen_core.cfg_for(prof), gen_core.gen_many(seed, prof, n), "rw-" + prof))
-        for k, (cfg, scs) in enumerate(extra_scenarios or []):
-            groups.append((cfg, scs, "tlc-%d" % k))
-        viol, cov = [], {"states": 0, "transitions": 0, "traces": 0, "events": 0, "crashes": 0, "unrealised": 0,
-                         "nontrivial": 0, "distinct": set(), "other": {}, "samples": [], "harness_errors": []}
-        for cfg, scs, tag in groups:
+        gen = []
+        for k in range(1 if q else 4):
+            gen += gen_tlc.scenarios(pid, GEN_N[0] if q else GEN_N[1] // 4, seed * 1000 + k)
+        cov["generated"] = len(gen)
+        tmo = "TRUE" if pid == "C16" else "FALSE"
+        groups.append((gen_tlc.cfg_for(pid), gen, "tlc", {"TimeoutOn": tmo}))
+        # 3. random walks over the same stimulus alphabet
+        for prof, nq, nt in PLANS[pid]:
+            n = nq if q else nt
+            scs = gen_core.gen_many(seed, prof, n)
+            ncf = CONF_RW[0] if q else CONF_RW[1]
+            plain = [s for s in scs if not any(st["op"] in ("answerhead", "answerrest") for st in _stims(s))]
+            rest = [s for s in scs if s not in plain[:ncf]]
+            conf_consts = {"TimeoutOn": "TRUE" if gen_core.PROFILES[prof].get("timeout") else "FALSE"}
+            groups.append((gen_core.cfg_for(prof), plain[:ncf], "rwc-" + prof, conf_consts))
+            groups.append((gen_core.cfg_for(prof), rest, "rw-" + prof, None))
+        viol = []
+        for cfg, scs, tag, conform in groups:
             if not scs:
                 continue
-            r = common.replay_and_validate(cfg, scs, wd, tag)
+            r = common.replay_and_validate(cfg, scs, wd, tag, conform=conform)
             cov["states"] += r["states"]
             cov["transitions"] += r["transitions"]
             cov["traces"] += r["traces"]
@@ -80,6 +109,12 @@ def run(pid, tier, seed, extra_scenarios=None):
             cov["crashes"] += r["crashes"] + r["dead"]
             cov["unrealised"] += r["unrealised"]
             cov["harness_errors"] += r["harness_errors"]
+            if "conf" in r:
+                cov["conformance"]["accepted"] += r["conf"]["accepted"]
+                cov["conformance"]["drift"] += r["conf"]["drift"][:10]
+                cov["conformance"]["unchecked"] += r["conf"]["unchecked"]
+                cov["states"] += r["conf"]["states"]
+                cov["transitions"] += r["conf"]["transitions"]
             for sc in scs:
                 if nontrivial(pid, sc):
                     s = sig(sc)
@@ -95,6 +130,10 @@ def run(pid, tier, seed, extra_scenarios=None):
                     key = v["prop"] + ":" + v["code"]
                     cov["other"][key] = cov["other"].get(key, 0) + 1
         cov["distinct"] = len(cov["distinct"])
+        if cov["conformance"]["drift"]:
+            log("DRIFT: %d recorded executions are not behaviours of spec/RcProxy.tla (the implementation no longer follows "
+                "the design model step by step; the property verdict does not depend on this): %s"
+                % (len(cov["conformance"]["drift"]), cov["conformance"]["drift"][:5]))
         return viol, cov
     finally:
         shutil.rmtree(wd, ignore_errors=True)
